@@ -292,9 +292,14 @@ def score_profile_from_rankings(
                 local_score_vector = score_vector[
                     current_ind : current_ind + position_size
                 ]
-                allocation = sum(local_score_vector) / position_size
+                # exact arithmetic: a float quotient (e.g. 1/3 for a three-way tie)
+                # would be frozen into the scores as its binary approximation
+                allocation = (
+                    sum(Fraction(points) for points in local_score_vector)
+                    / position_size
+                )
                 for c in s:
-                    scores[c] += Fraction(allocation) * ballot.weight
+                    scores[c] += allocation * ballot.weight
                 current_ind += position_size
 
     if to_float:
